@@ -406,3 +406,13 @@ Fixpoint go_index_byte_from (s : list Z) (b : Z) (i : Z) : Z :=
   | x :: r => if x =? b then i else go_index_byte_from r b (i + 1)
   end.
 Definition go_index_byte (s : list Z) (b : Z) : Z := go_index_byte_from s b 0.
+
+(* ---- an array handed to a local object and back (translator/fn_rest.go) ----
+   A function hands its slice parameter vs to a constructor of the file that stores it in a field
+   f of the object it builds (heapq.Sort: q := NewWithData(rcmp, vs)): from then on the object
+   works on the caller's array.  The capacity of f is tracked from the handover on, starting with
+   an empty spare part, so that at every moment  f ++ f_spare  is the content of the len(vs)
+   slots the function was given (element stores keep the length, go_reslice_cap moves elements
+   between the two parts and forgets none; a new array for f (make) or an append is refused by
+   the translator).  What the caller sees in vs afterwards: *)
+Definition go_handback {A : Type} (l spare : list A) : list A := l ++ spare.
